@@ -80,10 +80,22 @@ class InjectedBaseFault(BaseException):
   """BaseException variant of the injected fault."""
 
 
+_dyn_count = [0]
+
+
+def fresh_exception_class():
+  """A NEW exception class on every call, always with the same module and qualified name
+  (what a class factory produces); bases alternate."""
+  _dyn_count[0] += 1
+  base = (ValueError, KeyError, RuntimeError)[_dyn_count[0] % 3]
+  return type('DynamicError', (base,), {'__module__': __name__, 'generation': _dyn_count[0]})
+
+
 def raiser(shape):
   """Returns (category, function raising a fresh instance with original message text)."""
   table = {
       'plain': lambda u: Plain(f'plain failure {u}'),
+      'dynamic-class-same-qualname': lambda u: fresh_exception_class()(f'dyn {u}'),
       'value-error': lambda u: ValueError(f'bad value {u}'),
       'multi-arg': lambda u: Plain('first', u, 'third'),
       'no-arg': lambda u: Plain(),
@@ -112,7 +124,7 @@ def raiser(shape):
   return table[shape]
 
 
-SHAPES = ['plain', 'value-error', 'multi-arg', 'no-arg', 'custom-init', 'kwonly-init',
+SHAPES = ['plain', 'dynamic-class-same-qualname', 'value-error', 'multi-arg', 'no-arg', 'custom-init', 'kwonly-init',
           'str-override', 'slots', 'custom-new-incompatible', 'custom-new-compatible',
           'metaclass', 'unsubclassable', 'multi-base', 'key-error', 'os-error',
           'unicode-error', 'exception-group', 'stop-iteration', 'stop-async-iteration',
